@@ -12,6 +12,7 @@ operations exchange, which are plain subscripts of a parameter without an attrib
 aliasing rules, not here).
 """
 import ast
+from sa.index import before as _before
 
 MUTATORS = {'append', 'extend', 'insert', 'pop', 'remove', 'clear', 'update', 'popleft', 'appendleft', 'sort', 'reverse',
             'setdefault', 'add', 'discard', 'popitem'}
@@ -91,16 +92,16 @@ def stores_through_params(fnode):
         if isinstance(n, ast.Assign) and len(n.targets) == 1 and isinstance(n.targets[0], ast.Attribute) and isinstance(n.targets[0].value, ast.Name) \
                 and n.targets[0].value.id == 'self' and _reached_from(n.value, tainted) and isinstance(n.value, (ast.Attribute, ast.Subscript, ast.Name)):
             r, _ = _root(n.value)
-            self_alias[n.targets[0].attr] = (tainted.get(r, r), n.lineno)
+            self_alias[n.targets[0].attr] = (tainted.get(r, r), n)
     out = []
     for n in ast.walk(fnode):
         if self_alias:
             if isinstance(n, ast.AugAssign) and isinstance(n.target, ast.Attribute) and isinstance(n.target.value, ast.Name) and n.target.value.id == 'self' \
-                    and n.target.attr in self_alias and n.lineno > self_alias[n.target.attr][1] and isinstance(n.op, (ast.Add, ast.BitOr, ast.Mult)):
+                    and n.target.attr in self_alias and _before(self_alias[n.target.attr][1], n) and isinstance(n.op, (ast.Add, ast.BitOr, ast.Mult)):
                 out.append((n.lineno, ast.unparse(n), self_alias[n.target.attr][0]))
             if isinstance(n, ast.Call) and isinstance(n.func, ast.Attribute) and n.func.attr in MUTATORS and isinstance(n.func.value, ast.Attribute) \
                     and isinstance(n.func.value.value, ast.Name) and n.func.value.value.id == 'self' and n.func.value.attr in self_alias \
-                    and n.lineno > self_alias[n.func.value.attr][1]:
+                    and _before(self_alias[n.func.value.attr][1], n):
                 out.append((n.lineno, ast.unparse(n), self_alias[n.func.value.attr][0]))
     for n in ast.walk(fnode):
         tg = []
